@@ -533,13 +533,13 @@ func c01GenMeta(rt *rapid.T) [][2]string {
 		m = append(m, [2]string{name, valGen.Draw(rt, "mval")})
 	}
 	if rapid.Bool().Draw(rt, "ct") {
-		m = append(m, [2]string{"Content-Type", rapid.SampledFrom([]string{"text/plain; charset=utf-8", "application/octet-stream", "image/png", "x/y"}).Draw(rt, "ctv")})
+		m = append(m, [2]string{"Content-Type", rapid.SampledFrom([]string{"text/plain; charset=utf-8", "application/octet-stream", "image/png", "x/y", "application/xml", "multipart/form-data; boundary=x", "binary/octet-stream", "text/html"}).Draw(rt, "ctv")})
 	}
 	if rapid.IntRange(0, 3).Draw(rt, "ce") == 0 {
-		m = append(m, [2]string{"Content-Encoding", rapid.SampledFrom([]string{"gzip", "identity", "br"}).Draw(rt, "cev")})
+		m = append(m, [2]string{"Content-Encoding", rapid.SampledFrom([]string{"gzip", "identity", "br", "deflate", "compress", "deflate, gzip", "zstd", "x-gzip", "GZIP", "aws", "chunked"}).Draw(rt, "cev")})
 	}
 	if rapid.IntRange(0, 3).Draw(rt, "cd") == 0 {
-		m = append(m, [2]string{"Content-Disposition", rapid.SampledFrom([]string{`attachment; filename="a b.txt"`, "inline"}).Draw(rt, "cdv")})
+		m = append(m, [2]string{"Content-Disposition", rapid.SampledFrom([]string{`attachment; filename="a b.txt"`, "inline", `attachment; filename*=UTF-8''na%C3%AFve.txt`, "form-data; name=x"}).Draw(rt, "cdv")})
 	}
 	return m
 }
